@@ -207,6 +207,12 @@ def judge_eng(cid, cline, il):
     if il.startswith("DIFF"):
         f = C.fields(il)
         fr, sr = f.get("FILE", ""), f.get("STR", "")
+        if "DIVERGE" in (fr, sr):
+            # the VM step budget ran out on one side (thorough seed 5, unchanged tree: a 17 683-byte text, `(at least 1
+            # lower) = w ' ' w`: the two routes are given different budgets when a path is listed twice, and a case this
+            # close to the budget can fall on either side).  Termination is C10's subject; here it is not a verdict.
+            info["kind"] = "budget"
+            return None, info
         sig = "eng:" + _res_cls(fr) + "|" + _res_cls(sr)
         what = (f"RunFiles on a {base['size']}-byte file and Run on the same bytes differ for `{src}`: "
                 f"file -> {fr[:160]} ; string -> {sr[:160]}")
